@@ -140,7 +140,13 @@ def part(harness_specs, prop, label_of=None):
                 raise Undecided('kani-vacuous', '%s: only %d of %d cover properties satisfiable'
                                 % (h['name'], r['covers'][0], r['covers'][1]))
             if r['checks'] == 0:
-                raise Undecided('kani-no-obligations', h['name'])
+                # Kani reported a verdict without a check count (solver crash, out of memory): not decided
+                res['violations'].append({
+                    'unit': 'kani', 'label': h['label'], 'fn': ','.join(h.get('functions', [])),
+                    'message': 'Kani produced no check results for %s (status %s)' % (h['name'], st),
+                    'clause': [h.get('clause', '')], 'engine': 'kani', 'verifier_output': '\n'.join(r['failures'])[:2000],
+                    'needs_witness': ['kani gave no check results for %s' % h['name']]})
+                continue
             for s in r.get('stubs', []):
                 if s.startswith('unverified-stub:'):
                     res['trusted'].append('kani stub (assumed, not verified): %s in %s' % (s.split(':', 1)[1], h['name']))
